@@ -66,7 +66,10 @@ def verdict(rules, text, cur):
     return None
 
 
-def make_validator(rules):
+def make_validator(rules, gate=None):
+    """gate: an asyncio.Event; when given, validate_async (the validate-while-
+    typing path) waits for it, so a validation can be in flight while the text
+    changes.  The verdict is the one of the document that was passed in."""
     from prompt_toolkit.validation import ValidationError, Validator
 
     class RuleValidator(Validator):
@@ -74,7 +77,16 @@ def make_validator(rules):
             p = verdict(rules, document.text, document.cursor_position)
             if p is not None:
                 raise ValidationError(cursor_position=p, message="rejected")
+
+        async def validate_async(self, document):
+            if gate is not None:
+                await gate.wait()
+            self.validate(document)
     return RuleValidator()
+
+
+def rules_ignore_cursor(rules):
+    return rules is None or all(cond[0] != 6 for cond, pos in rules)
 
 
 # --------------------------------------------------------------------------
@@ -116,11 +128,13 @@ VST = {"UNKNOWN": 0, "VALID": 1, "INVALID": 2}
 
 
 def snapshot(b, h, status, ret):
+    # History.get_strings() loads the history as a side effect; the harness reads
+    # the raw list (what is loaded so far) so that observing changes nothing.
     return [status, None if ret is None else [S(ret)],
             [S(x) for x in b._working_lines], b.working_index, b.cursor_position,
             None if b.history_search_text is None else [S(b.history_search_text)],
             None if b.preferred_column is None else [b.preferred_column],
-            VST[b.validation_state.name], [S(x) for x in h.get_strings()], [S(x) for x in h._storage]]
+            VST[b.validation_state.name], [S(x) for x in h._loaded_strings[::-1]], [S(x) for x in h._storage]]
 
 
 async def spin(n=6):
@@ -158,8 +172,11 @@ def get_dummy_app():
     return _APP["app"]
 
 
-async def impl_buffer_case(case):
-    """-> list of snapshots, one per observed op"""
+async def impl_buffer_case(case, slow=False):
+    """-> list of snapshots, one per observed op.  slow: the validator's
+    validate_async is gated; the gate is closed while operations flagged
+    "deferred" run (their scheduled validation starts but stays in flight) and
+    opened after every other operation until everything has settled."""
     from prompt_toolkit.application.current import set_app
     from prompt_toolkit.buffer import Buffer
     from prompt_toolkit.document import Document
@@ -173,8 +190,9 @@ async def impl_buffer_case(case):
         rets.append(buff.text)
         return bool(keep)
     h = make_history([unS(x) for x in storage])
+    gate = asyncio.Event() if slow else None
     with set_app(get_dummy_app()):
-        b = Buffer(history=h, validator=None if rules is None else make_validator(rules),
+        b = Buffer(history=h, validator=None if rules is None else make_validator(rules, gate),
                    validate_while_typing=bool(vwt), enable_history_search=Condition(lambda: flags["ehs"]),
                    accept_handler=handler, multiline=True)
         out = []
@@ -232,11 +250,19 @@ async def impl_buffer_case(case):
                         raise ValueError(k)
                 except (AssertionError, IndexError) as e:
                     status = exc_status(e)
-                if flag < 2:
+                if gate is not None:
+                    await spin()            # scheduled tasks start (and wait at the gate)
+                    if flag < 2:
+                        gate.set()
+                        await spin(16)
+                        gate.clear()
+                elif flag < 2:
                     await spin()
                 if flag & 1:
                     out.append(snapshot(b, h, status, ret))
         finally:
+            if gate is not None:
+                gate.set()
             if b._load_history_task is not None:
                 b._load_history_task.cancel()
             await spin(3)
@@ -486,6 +512,10 @@ def oracle_case(case, results):
                 v = verdict(rules, unS(text0), cur0)
             else:
                 v = None if vst0 == 1 else "stale"
+            # a cached VALID verdict must be one for this text ("succeeds only if the validator passes");
+            # judged only for validators that do not look at the cursor, which may move under a cached verdict
+            if vst0 == 1 and ret is not None and rules_ignore_cursor(rules) and verdict(rules, unS(text0), cur0) is not None:
+                yield ("accept: input accepted although the validator rejects it (stale VALID verdict)", "accepted-invalid-stale", name, (text0,))
             if v is not None:
                 if ret is not None:
                     yield ("accept: input accepted although the validator rejects it", "accepted-invalid", name, (text0,))
@@ -528,7 +558,7 @@ def oracle_case(case, results):
             elif o[0] not in NAV + POP + (14,):
                 clean_text = None
         if k == 16 and st == 0:
-            if wl != [op[1]] or wi != 0 or cur != op[2] or hst is not None or vst != 0:
+            if wl != [op[1]] or wi != 0 or cur != op[2] or hst is not None:
                 yield ("reset_clean: after reset the entry list must be [new text]", "reset", name, (wl, wi, cur))
         if k == 19 and st == 0 and clean_text is not None and load_started:
             if wl != gs + [clean_text] or sto != gs:
@@ -694,6 +724,39 @@ def gen_buffer_cases(chk):
     return cases, dist
 
 
+def gen_slow_cases(chk):
+    """validate-while-typing with a validator that is still running when the
+    next operations arrive (flag 3 = observed, no event-loop settling after it)"""
+    rng = chk.rng
+    thorough = chk.tier == "thorough"
+    cases = []
+    bad = [[[2, ord("x")], [0, 0]]]               # texts containing x are rejected
+    for storage in ([], ["ox"], ["41", "ax", "7"]):
+        st = [S(x) for x in storage]
+        pre = [[1, [17]], [1, [19]]]
+        for keep in (0, 1):
+            for first in ("1", "ab"):
+                # type something valid, then make it invalid while the validation is in flight
+                cases.append([st, 0, 1, keep, bad, pre + [[3, [7, S(first)]], [1, [7, S("x")]], [1, [15]], [1, [8, 1]], [1, [15]]]])
+                cases.append([st, 0, 1, keep, bad, pre + [[3, [7, S(first)]], [3, [7, S("x")]], [3, [12, 1]], [1, [15]]]])
+                # ... or recall another entry meanwhile
+                cases.append([st, 0, 1, keep, bad, pre + [[3, [7, S(first)]], [1, [4, 1, 0]], [1, [15]], [1, [5, 1, 0]], [1, [15]]]])
+                cases.append([st, 0, 1, keep, bad, pre + [[3, [7, S(first)]], [3, [1, 2]], [3, [15]], [1, [2, 1]], [1, [15]]]])
+    for _ in range(1500 if thorough else 250):
+        rules = rand_rules(rng)
+        while rules is None:
+            rules = rand_rules(rng)
+        ops = [[1, [17]], [1, [19]]] if rng.random() < 0.8 else []
+        for _ in range(rng.randint(2, 16)):
+            o = rand_buffer_op(rng, True)
+            if o[0] in (3,) and o[1] < 0:
+                continue
+            ops.append([3 if rng.random() < 0.45 else 1, o])
+        ops.append([1, [15]])
+        cases.append([rand_storage(rng), rng.randint(0, 1), 1, rng.randint(0, 1), rules, ops])
+    return cases
+
+
 def rand_key(rng, allow_bad_arg=True):
     r = rng.random()
     arg = None
@@ -761,7 +824,8 @@ def fmt_ops(ops, n=8):
         for x in o[1:]:
             a.append(repr(unS(x)) if isinstance(x, list) else str(x))
         return "%s(%s)" % (OPN.get(o[0], "?"), ",".join(a))
-    return " ; ".join(one(o) for f, o in ops[:n]) + (" ; ..." if len(ops) > n else "")
+    # "~" marks an operation after which the event loop was not allowed to settle (type-ahead / validator still running)
+    return " ; ".join(one(o) + ("~" if f >= 2 else "") for f, o in ops[:n]) + (" ; ..." if len(ops) > n else "")
 
 
 def describe_case(case):
@@ -775,9 +839,11 @@ def run_impl(runner, level, item):
     try:
         if level == "buffer":
             return item, runner.run(lambda: impl_buffer_case(item))
+        if level == "buffer-slow":
+            return item, runner.run(lambda: impl_buffer_case(item, slow=True))
         return runner.run(lambda: impl_session_case(item), 20)
     except Hang:
-        if level == "buffer":
+        if level in ("buffer", "buffer-slow"):
             return item, [["HANG"]]
         return [item[0], item[1], item[2], 1, item[3] if item[3] is not None else [], []], [["HANG"]]
 
@@ -802,6 +868,11 @@ def main(tier):
     for c in bcases:
         case, res = run_impl(runner, "buffer", c)
         cases.append(case); results.append(res); levels.append("buffer")
+    scases = gen_slow_cases(chk)
+    for c in scases:
+        case, res = run_impl(runner, "buffer-slow", c)
+        cases.append(case); results.append(res); levels.append("buffer-slow")
+    dist["slow_validator_sessions"] = len(scases)
     nkeys = 0
     for sc in scripts:
         case, res = run_impl(runner, "session", sc)
@@ -829,7 +900,7 @@ def main(tier):
             chk.violation("oracle", "%s | %s" % (clause, describe_case(case)),
                           {"clause": clause.split(":")[0], "family": fam, "op": opname},
                           {"case": wire(case), "level": levels[i], "clause": clause, "detail": detail,
-                           "how": "harness/c14.py impl_buffer_case (real Buffer + gated InMemoryHistory) replays the case"})
+                           "how": "harness/c14.py impl_buffer_case (real Buffer + gated InMemoryHistory; level buffer-slow: gated validate_async) replays the case"})
         if i % 499 == 0:
             chk.sample({"level": levels[i], "case": describe_case(case), "last_observed": res[-1] if res else None})
     dist["ops"] = opcount
@@ -879,10 +950,10 @@ def main(tier):
         "population steps among 4 navigation steps; random sessions over all 21 operations. Session level: random key scripts "
         "(up/down/C-up/C-down/PageUp/PageDown/Left/Right/Backspace/Esc-digit/Esc-</Esc->/characters/Enter, type-ahead keys) over "
         "1-4 consecutive prompt_async() calls on one PromptSession. non-trivial = some observed state has working_index != 0 or "
-        "more than one working line; distinct by hash of the whole case" % (4 if chk.tier == "thorough" else 3, POSITIONS))
+        "more than one working line; distinct by hash of the whole case. Plus a slow-validator family at buffer level (validate_async gated, validations in flight across edits/navigation/accept)." % (4 if chk.tier == "thorough" else 3, POSITIONS))
     chk.assumptions += [
         "completion state and selection state are absent (auto_up/auto_down take their history branch); read-only buffers, undo stack and events are outside the model",
-        "a validate-while-typing run scheduled by an operation completes before the next operation (the harness lets the event loop run after every operation/key); real asynchrony of validators is C15's subject",
+        "a validate-while-typing run scheduled by an operation completes before the next operation unless that operation is flagged deferred (type-ahead batches; slow-validator family where validate_async waits at a gate while later operations run); thread-level asynchrony (ThreadedValidator) is outside",
         "history backends other than InMemoryHistory (FileHistory, ThreadedHistory) are outside the model; the gated history used at buffer level delegates every item to History.load()",
         "the validator is an arbitrary function (text, cursor) -> option position in the theorems; the harness instantiates it with rule lists",
         "vi-mode keys are exercised only through Buffer.auto_up/auto_down(go_to_start_of_line_if_history_changes=True) and go_to_history at buffer level",
@@ -895,7 +966,8 @@ def replay(data):
     w = rep["case"]
     case = [w[0], w[1], w[2], w[3], (w[4][0] if w[4] else None), w[5]]
     runner = Runner()
-    _, res = run_impl(runner, "buffer", case)
+    lvl = rep.get("level", "buffer")
+    _, res = run_impl(runner, lvl if lvl in ("buffer", "buffer-slow") else "buffer", case)
     runner.close()
     print(describe_case(case))
     obs = [o for f, o in case[5] if f & 1]
